@@ -73,6 +73,32 @@ def recording():
         torch.randn = orig_r
 
 
+def probe_diag_jitter_form():
+    """Which entries of T does Diagonalization.forward add tridiagonal_jitter * min(diag T) to on the tree under
+    test?  'all' (the pinned code: diag_embed of a keepdim minimum, expanded), 'diag' (repaired) or 'unknown'.
+    Probed by running op.diagonalization(method="lanczos") on a fixed 4 x 4 matrix with jitter 0.5 and reading back
+    the matrix handed to torch.linalg.eigh."""
+    from linear_operator import settings
+    from linear_operator.operators import to_linear_operator
+    try:
+        A = torch.tensor([[4.0, 1.0, 0.0, 0.5], [1.0, 3.0, 1.0, 0.0], [0.0, 1.0, 2.0, 1.0], [0.5, 0.0, 1.0, 5.0]], dtype=F64)
+        with recording() as rec, settings.tridiagonal_jitter(0.5), settings.max_root_decomposition_size(100):
+            to_linear_operator(A).diagonalization(method="lanczos")
+        T = rec.lanczos[-1][2].to(F64)
+        m = T.shape[-1]
+        T = T.reshape(m, m)
+        ein = rec.eigh[-1][0].to(F64).reshape(m, m)
+        jm = 0.5 * float(torch.diagonal(T).min())
+        D = ein - T
+        if float((D - jm * torch.ones(m, m, dtype=F64)).abs().max()) <= 1e-9 * abs(jm):
+            return "all"
+        if float((D - jm * torch.eye(m, dtype=F64)).abs().max()) <= 1e-9 * abs(jm):
+            return "diag"
+    except Exception:  # noqa
+        pass
+    return "unknown"
+
+
 def grid(quick):
     """API cells: api, n, batch, fam, size (max_root_decomposition_size), dtype, jitter (None = default), nprobe"""
     cells = []
@@ -97,6 +123,16 @@ def grid(quick):
                 for batch in ([], [2]):
                     cells.append({"api": "root_inv_multi", "n": n, "batch": batch, "fam": fam, "size": max(2, n - 2),
                                   "dtype": "f64", "jitter": None, "nprobe": nprobe, "start": "random", "nvec": nprobe})
+    # batch shapes with dimensions of size 1 (the unsqueeze / squeeze bookkeeping of the forward passes and the
+    # squeeze(0) of the probe selection)
+    for bi, batch in enumerate([[1], [1, 2], [2, 1], [1, 1], [3, 1, 2]] if not quick else [[1], [1, 2], [2, 1], [1, 1]]):
+        for n in ([4, 6] if quick else [3, 4, 6, 9]):
+            for api in ("root", "root_inv", "diag"):
+                cells.append({"api": api, "n": n, "batch": batch, "fam": ["uniform", "kappa10"][(bi + n) % 2], "size": [100, n - 1][bi % 2],
+                              "dtype": "f64", "jitter": None, "nprobe": 1, "start": "random", "nvec": 1})
+            for nprobe in (2, 3):
+                cells.append({"api": "root_inv_multi", "n": n, "batch": batch, "fam": "uniform", "size": max(2, n - 1),
+                              "dtype": "f64", "jitter": None, "nprobe": nprobe, "start": "random", "nvec": nprobe})
     # lanczos_tridiag_to_diag on tridiagonal matrices with negative eigenvalues (the masking branch)
     for k in ([2, 3, 6, 33] if quick else [1, 2, 3, 6, 12, 31, 32, 33, 40]):
         for lead in ([], [2], [3, 2]):
@@ -237,13 +273,24 @@ def judge_api(c, d, r, lanczos_cell, default_jitter=1e-6):
     ein, evals, evecs = _lead(ein, m, m), _lead(evals, m), _lead(evecs, m, m)
     jit = default_jitter if c["jitter"] is None else c["jitter"]
     exp_shape = list(c["batch"]) + [n, m]
+    shape_fails = []
+
+    def shape_fail(what, got, exp):
+        # known finding C09-leading-singleton-batch: exactly the leading batch dimension of size 1 is missing
+        kind = "shape"
+        if len(c["batch"]) >= 1 and c["batch"][0] == 1 and list(got) == list(exp)[1:]:
+            kind = "shape-leading-singleton-batch-dropped"
+        shape_fails.append({"fail": kind, "what": what, "shape": list(got), "expected": list(exp)})
     for key in ("root", "inv", "dvecs"):
         if key in r and list(r[key].shape) != exp_shape:
-            fails.append({"fail": "shape", "what": key, "shape": list(r[key].shape), "expected": exp_shape})
+            shape_fail(key, r[key].shape, exp_shape)
     if "dvals" in r and list(r["dvals"].shape) != list(c["batch"]) + [m]:
-        fails.append({"fail": "shape", "what": "dvals", "shape": list(r["dvals"].shape)})
-    if fails or lanczos_cell != "regular" or c["fam"] == "indef":
-        return fails, info
+        shape_fail("dvals", r["dvals"].shape, list(c["batch"]) + [m])
+    info["shapes"] = {k: list(r[k].shape) for k in ("root", "inv", "dvecs", "dvals") if k in r}
+    if any(f["fail"] == "shape" for f in shape_fails) or any(r[k].numel() != Lq * n * m for k in ("root", "inv", "dvecs") if k in r and c["api"] != "root_inv_multi"):
+        return [f for f in shape_fails if f["fail"] == "shape"] or shape_fails, info
+    if lanczos_cell != "regular" or c["fam"] == "indef":
+        return shape_fails, info
     worst = {}
     for li in range(Lq):
         b = li % B
@@ -298,7 +345,8 @@ def judge_api(c, d, r, lanczos_cell, default_jitter=1e-6):
         elif min(res) < res[idx] * (1 - 1e-9):
             fails.append({"fail": "best-probe-not-argmin", "residuals": res, "chosen": idx})
     info["worst"] = worst
-    return fails, info
+    # a wrong value is reported before the (known) dropped singleton dimension
+    return fails + shape_fails, info
 
 
 def probe_residuals(A, inv_roots, test_vectors, chosen):
@@ -318,10 +366,11 @@ def probe_residuals(A, inv_roots, test_vectors, chosen):
 
 
 def pcase_lits(c, d, r, flit, fmat_lit, seq_lit, coq_bool, default_jitter=1e-6):
-    """Coq literals (MkPCase ...) for every leading index of an API call, and MkSCase for the probe selection"""
-    out, sc = [], []
+    """Coq literals (MkPCase ...) for every leading index of an API call, MkSCase for the probe selection and MkHCase
+    for the shapes handed back"""
+    out, sc, hc = [], [], []
     if not r["ok"]:
-        return out, sc
+        return out, sc, hc
     f32 = c["dtype"] == "f32"
     rtol = 1e-9 if not f32 else 2e-4
     dt = {"f64": torch.float64, "f32": torch.float32}[c["dtype"]]
@@ -342,10 +391,10 @@ def pcase_lits(c, d, r, flit, fmat_lit, seq_lit, coq_bool, default_jitter=1e-6):
             out.append("MkPCase %s %d %d true %s %s %s %s %s %s None None %s %s %s" % (
                 coq_bool(f32), k, k, flit(0.0), fmat_lit(eye), fmat_lit(T[li]), fmat_lit(T[li]), vec(ev0[li]), fmat_lit(V0[li]),
                 opt(vec(ev1[li])), opt(fmat_lit(V1[li])), flit(rtol)))
-        return out, sc
+        return out, sc, hc
     rec = r["rec"]
     if not rec.lanczos or not rec.eigh:
-        return out, sc
+        return out, sc, hc
     kw, q, t = rec.lanczos[-1]
     n, m = c["n"], t.shape[-1]
     qq, tt = _lead(q, n, m), _lead(t, m, m)
@@ -372,12 +421,33 @@ def pcase_lits(c, d, r, flit, fmat_lit, seq_lit, coq_bool, default_jitter=1e-6):
             opt(fmat_lit(obs["inv"][li]) if "inv" in obs else None),
             opt(vec(obs["dvals"][li]) if "dvals" in obs else None),
             opt(fmat_lit(obs["dvecs"][li]) if "dvecs" in obs else None), flit(rtol)))
+    def nats(xs):
+        return seq_lit(["%d" % int(x) for x in xs])
+    if n > 1 and m > 1:
+        if c["api"] in ("root", "root_inv"):
+            key = "root" if "root" in r else "inv"
+            hc.append("MkHCase 0 1 %s %d %d %s [::]" % (nats(c["batch"]), n, m, nats(r[key].shape)))
+        elif c["api"] == "diag":
+            hc.append("MkHCase 1 1 %s %d %d %s %s" % (nats(c["batch"]), n, m, nats(r["dvecs"].shape), nats(r["dvals"].shape)))
+        elif c["api"] == "root_inv_multi" and rec.post:
+            hc.append("MkHCase 0 %d %s %d %d %s [::]" % (c["nprobe"], nats(c["batch"]), n, m, nats(rec.post[-1][0].shape)))
+            hc.append("MkHCase 2 %d %s %d %d %s [::]" % (c["nprobe"], nats(c["batch"]), n, m, nats(r["inv"].shape)))
     if c["api"] == "root_inv_multi" and rec.post:
         inv_roots, iv, tv, chosen = rec.post[-1]
         B = S.prod(c["batch"])
         A = d["A"].to(dt).to(F64)
         res, idx = probe_residuals(A, inv_roots, tv, chosen)
         srt = sorted(res)
-        if idx is not None and (len(srt) < 2 or srt[1] - srt[0] > 1e-9 * max(srt[1], 1e-300)):
-            sc.append("MkSCase %s %d" % (seq_lit([flit(x) for x in res]), idx))
-    return out, sc
+        if idx is not None:
+            clear = len(srt) < 2 or srt[1] - srt[0] > 1e-9 * max(srt[1], 1e-300)
+            Pn = inv_roots.shape[0]
+            t = tv.shape[-1]
+            ir = inv_roots.to(F64).reshape(Pn, B, n, m)
+            tvv = tv.to(F64).reshape(B, n, t)
+            AA = A.reshape(B, n, n)
+            sc.append("MkSCase %d %d %d %s %s %s %s %d %s %s" % (
+                n, m, t, seq_lit([fmat_lit(AA[b]) for b in range(B)]),
+                seq_lit([seq_lit([fmat_lit(ir[p, b]) for b in range(B)]) for p in range(Pn)]),
+                seq_lit([fmat_lit(tvv[b]) for b in range(B)]),
+                seq_lit([flit(x) for x in res]), idx, coq_bool(clear), flit(1e-9)))
+    return out, sc, hc
